@@ -832,7 +832,11 @@ func (cfg *config) scenario() *mc.Scenario {
 	all := []string{"C01", "C02", "C03", "C06", "C07"}
 	bounds := cfg.Bounds
 	if bounds == nil {
-		bounds = map[string]int{"quick": 2, "thorough": -1}
+		bounds = map[string]int{"quick": 2, "thorough": 4}
+	}
+	shards := cfg.Shards
+	if shards == 0 {
+		shards = 8
 	}
 	var cur *world
 	return &mc.Scenario{
@@ -842,7 +846,7 @@ func (cfg *config) scenario() *mc.Scenario {
 		Livelock:    []string{"C06"},
 		Panics:      all,
 		Bounds:      bounds,
-		Shards:      cfg.Shards,
+		Shards:      shards,
 		PreemptFree: cfg.PreemptFree,
 		Build: func(x *mc.X) {
 			c := *cfg
